@@ -12,7 +12,7 @@ From Coq Require Import ZArith NArith List Bool Arith Lia.
 From GV Require Import Base.Result Base.Host Gen.TokenTypes Gen.Defs Gen.Instr Model.Num Model.Value
   Model.Parser Model.BuilderWL Model.Machine Model.Compile Model.CompileExpr Model.CompileWL
   Spec.RefTable Spec.Pratt Spec.Chains Spec.Ast Spec.Printer Spec.Eval Spec.Fragment
-  Proofs.C02.Denote Proofs.C05.InlBase Proofs.Builder.PrattBridge Proofs.C01.Sizes
+  Proofs.C02.Denote Proofs.C05.InlBase Proofs.Builder.PrattBridge Proofs.C01.Sizes Proofs.C01.SimDone
   Proofs.C01.EndToEnd.PrintItems Proofs.C01.EndToEnd.PrintClimb Proofs.C01.EndToEnd.CompileBase.
 Import ListNotations.
 
@@ -146,7 +146,45 @@ Proof.
   destruct (i1 ++ i2); [reflexivity|]. rewrite new_jump_s. reflexivity.
 Qed.
 
+Lemma inl_nested ix rt cx s :
+  inl (Compile.T ix D_NestedExpression None (Some rt)) cx s =
+  Ok (sx s [(I_Put, OExpr (jl0 s))] [Some ix] [0], [mkP rt (jl0 s) (jl0 s) default_end], []).
+Proof.
+  cbn [Compile.inl kind_of]. rewrite new_jump_s, emit_sx. reflexivity.
+Qed.
+
 End Steps.
+
+(* no inline instruction of the fragment is EndExpression *)
+Definition ne (mi : minstr) : Prop := fst mi <> I_EndExpression.
+
+Lemma no_end_inl sym_hash lvl : forall e, efrag lvl e = true ->
+  forall ic cont lk pc j aob ajb ob jb jj, Forall ne (c_inl (compC sym_hash ic cont lk e pc j aob ajb ob jb jj)).
+Proof.
+  induction e; intros F ic cont lk pc j aob ajb ob jb jj; try discriminate F; cbn [efrag] in F;
+    repeat (apply andb_true_iff in F; let G := fresh "G" in destruct F as [F G]); cbn [compC].
+  - constructor; [cbn; discriminate|constructor].
+  - constructor; [cbn; discriminate|constructor].
+  - constructor; [cbn; discriminate|constructor].
+  - cbn [of_frag to_frag c_inl f_inl]. apply Forall_app. split; [apply IHe; exact F|].
+    constructor; [destruct o; cbn; discriminate|constructor].
+  - destruct (right_first o); cbn [of_frag to_frag c_inl f_inl]; repeat (apply Forall_app; split);
+      try (apply IHe1; assumption); try (apply IHe2; assumption);
+      (constructor; [destruct o; cbn; discriminate|constructor]).
+  - cbn [of_frag to_frag c_inl f_inl]. apply Forall_app. split; [apply IHe1; assumption|].
+    constructor; [cbn; discriminate|constructor].
+  - cbn [of_frag to_frag c_inl f_inl]. apply Forall_app. split; [apply IHe1; assumption|].
+    constructor; [cbn; discriminate|constructor].
+  - cbn [of_frag to_frag c_inl f_inl]. repeat (apply Forall_app; split);
+      try (apply IHe1; assumption); try (apply IHe2; assumption).
+    destruct (in_list lk k); [constructor|]. constructor; [cbn; discriminate|constructor].
+  - cbn [of_frag to_frag c_inl f_inl]. apply IHe; exact F.
+  - destruct ic; cbn [of_frag to_frag c_inl f_inl]; (apply Forall_app; split; [apply IHe1; assumption|]).
+    + constructor; [destruct neg; cbn; discriminate|constructor].
+    + constructor; [destruct neg; cbn; discriminate|]. constructor; [cbn; discriminate|constructor].
+  - destruct ic; cbn [of_frag to_frag c_inl f_inl]; (apply Forall_app; split; [apply IHe1; assumption|apply IHe2; assumption]).
+  - cbn [of_frag to_frag c_inl f_inl]. constructor; [cbn; discriminate|constructor].
+Qed.
 
 Section Sim.
 Variable sym_hash : list N -> N.
@@ -393,6 +431,7 @@ Proof.
   - destruct t as [| | | |b ? ? ?]; try contradiction. destruct b; try contradiction. intros _. reflexivity.
   - destruct t; try contradiction. intros [-> _]. reflexivity.
   - destruct t; try contradiction. intros [-> _]. reflexivity.
+  - destruct t as [| | | |b ? ? ?]; try contradiction. destruct b; try contradiction. intros _. reflexivity.
 Qed.
 
 Lemma root_def_list kk e : match e with EList _ _ _ => False | _ => True end ->
@@ -439,9 +478,38 @@ Proof.
     split; [exact Ln|]. eapply bodies_weaken; [|exact Bo]. cbn [Ast.size]. lia.
 Qed.
 
+(* ---- the closing EndExpression of a body is emitted after code that does not end in one ---- *)
+Lemma conv_fst : forall a x, conv a = Ok x -> map fst x = map fst a.
+Proof.
+  induction a as [|[i o] a IH]; intros x Ha.
+  - injection Ha as <-. reflexivity.
+  - cbn [convert] in Ha. destruct (match o with ONone => Ok MNone | ONum n => Ok (MNum n)
+      | OData ni => do v <- operand_value sym_hash toks ns ni; Ok (MVal v) | OExpr j => Ok (MVal (VExpr (N.of_nat j))) end) as [m| | |];
+      try discriminate Ha. cbn [bind] in Ha.
+    destruct (conv a) as [r| | |]; try discriminate Ha. cbn [bind] in Ha. injection Ha as <-.
+    cbn [map fst]. rewrite (IH r eq_refl). reflexivity.
+Qed.
+
+Lemma finish_end s code ms js mcode :
+  conv code = Ok mcode -> Forall ne mcode -> code <> [] ->
+  Compile.finish empty_init (sx s code ms js) default_end = sx s (code ++ [(I_EndExpression, ONone)]) (ms ++ [None]) js.
+Proof.
+  intros Hc Hn Hne. unfold Compile.finish, default_end. cbn [fold_left].
+  assert (Hlast : exists li, last_instr empty_init (sx s code ms js) = Some li /\ instruction_eqb (fst li) I_EndExpression = false).
+  { unfold last_instr, sx. cbn [Compile.ci]. rewrite rev_app_distr.
+    destruct (rev code) as [|li r] eqn:Er.
+    - exfalso. apply Hne. rewrite <- (rev_involutive code), Er. reflexivity.
+    - exists li. split; [reflexivity|].
+      assert (Hin : In li code) by (apply in_rev; rewrite Er; left; reflexivity).
+      assert (Hf : In (fst li) (map fst mcode)) by (rewrite (conv_fst _ _ Hc); apply in_map; exact Hin).
+      apply in_map_iff in Hf. destruct Hf as (mi & E & Hmi). rewrite Forall_forall in Hn. specialize (Hn mi Hmi).
+      unfold ne in Hn. rewrite E in Hn. destruct (fst li); try reflexivity. contradiction. }
+  destruct Hlast as (li & -> & Hl). unfold instr_eqb. cbn [fst]. rewrite Hl. cbn [andb]. rewrite emit_sx. reflexivity.
+Qed.
+
 (* ---- one out-of-line body ---- *)
 Lemma body_one eb tb pj ends mends ob jb x :
-  inl_spec eb tb -> no_end ends -> conv ends = Ok mends ->
+  inl_spec eb tb -> (no_end ends \/ (ends = default_end /\ efrag LV eb = true)) -> conv ends = Ok mends ->
   let Fb := comp c None eb ob jb (ob + si (sizes None eb) + length ends) (jb + sji (sizes None eb)) in
   bodies_ok (S (Ast.size eb)) [mkP (img tb) c pj ends] pj [x] [ob] ob jb
             (f_inl Fb ++ mends ++ f_ool Fb) (f_ji Fb ++ f_jo Fb).
@@ -457,9 +525,14 @@ Proof.
     as (cb & mb & jb0 & psb & Ib & Cb & Lb & Bb).
   rewrite Ei, Ej in Cb, Lb, Bb. fold Fb in Cb, Lb, Bb.
   change (Compile.plain c) with (mkCx c (option_map kdef None) false). rewrite Ib. cbn [bind]. cbv beta iota.
-  rewrite (finish_no_end _ _ Hne), sx_sx.
   destruct (comp_sizes sym_hash eb c None ob jb (ob + si (sizes None eb) + length ends) (jb + sji (sizes None eb))) as (Si & _ & Sj & _).
   fold Fb in Si, Sj.
+  assert (Hfin : Compile.finish empty_init (sx s1 cb mb jb0) ends = sx (sx s1 cb mb jb0) ends (map (fun _ => None) ends) []).
+  { destruct Hne as [Hne|[-> Hfr]]; [apply finish_no_end; exact Hne|].
+    rewrite (finish_end s1 cb mb jb0 _ Cb), sx_sx, app_nil_r; [reflexivity| |].
+    - unfold Fb, CompileExpr.comp. cbn [to_frag f_inl]. eapply no_end_inl; exact Hfr.
+    - intros ->. pose proof (conv_length _ _ _ _ _ Cb) as Hl0. rewrite Si in Hl0. pose proof (si_pos None eb). cbn [length] in Hl0. lia. }
+  rewrite Hfin, sx_sx.
   set (s3 := sx s1 (cb ++ ends) (mb ++ map (fun _ => None) ends) (jb0 ++ [])).
   destruct (Bb f s3 (pre ++ ob :: mid) [] ltac:(lia)) as (c' & m' & Hr & Hc').
   - unfold s3, s1, sx. cbn [Compile.cj]. rewrite Hi, !app_nil_r. reflexivity.
@@ -519,7 +592,7 @@ Proof.
     pose proof (body_one r tr (jl0 s + sji a) [(I_Tis, ONone); (I_JumpTo, ONum (jl0 s + sji a + 1))]
                   [ins I_Tis; insn I_JumpTo (jl0 s + sji a + 1)] ob jb 0 Hr) as HB.
     cbn [length] in HB. fold b Fr in HB.
-    specialize (HB ltac:(repeat constructor; discriminate) eq_refl).
+    specialize (HB ltac:(left; repeat constructor; discriminate) eq_refl).
     apply bodies_frame_r with (b := [il0 s + si a + 1]) in HB; [|reflexivity].
     cbn [app] in HB.
     eapply bodies_weaken; [|exact HB]. destruct isand; cbn [Ast.size]; lia.
@@ -572,7 +645,7 @@ Proof.
     pose proof (body_one a ta (jl0 s + sji x) [(I_JumpTo, ONum (jl0 s + sji x + 1))]
                   [insn I_JumpTo (jl0 s + sji x + 1)] ob jb 0 Ha) as HB.
     cbn [length] in HB. fold y Fa in HB.
-    specialize (HB ltac:(repeat constructor; discriminate) eq_refl).
+    specialize (HB ltac:(left; repeat constructor; discriminate) eq_refl).
     apply bodies_frame_r with (b := [il0 s + si x + 2]) in HB; [|reflexivity].
     cbn [app] in HB. eapply bodies_weaken; [|exact HB]. cbn [Ast.size]. lia.
 Qed.
@@ -648,7 +721,7 @@ Proof.
   assert (Hj1 : length j1 = sji x) by (rewrite jl0_sx in Ej; lia).
   split.
   - pose proof (body_one a ta (jl0 s + sji x) [(I_JumpTo, ONum jj)] [insn I_JumpTo jj] aob ajb 0 Ha) as HB.
-    cbn [length] in HB. fold y in HB. specialize (HB ltac:(repeat constructor; discriminate) eq_refl).
+    cbn [length] in HB. fold y in HB. specialize (HB ltac:(left; repeat constructor; discriminate) eq_refl).
     cbn [arms map fst snd]. apply bodies_frame_l; [reflexivity|]. rewrite Hj1.
     eapply bodies_weaken; [|exact HB]. cbn [Ast.size]. lia.
   - apply bodies_frame_r; [exact L1|]. eapply bodies_weaken; [|exact B1]. cbn [Ast.size]. lia.
@@ -763,3 +836,26 @@ Proof.
 Qed.
 
 End Sim.
+
+(* ---- nested expressions: the body is an out-of-line body whose containing
+   expression is its own jump entry ---- *)
+Lemma comp_nested sym_hash cont lk lbl b pc j ob jb :
+  CompileExpr.comp sym_hash cont lk (ENested lbl b) pc j ob jb =
+  let y := sizes None b in
+  let fb := CompileExpr.comp sym_hash j None b ob jb (ob + si y + 1) (jb + sji y) in
+  mkFrag [(I_Put, MVal (VExpr (N.of_nat j)))] (f_inl fb ++ [ins I_EndExpression] ++ f_ool fb) [ob] (f_ji fb ++ f_jo fb).
+Proof. reflexivity. Qed.
+
+Lemma step_nested sym_hash toks ns lbl b i k a :
+  efrag LV b = true ->
+  (forall c', inl_spec sym_hash toks ns c' b a) ->
+  forall c, inl_spec sym_hash toks ns c (ENested lbl b) (NGroup BCurly i k a).
+Proof.
+  intros Fb Hb c rj lk cond s ob jb _. unfold inl_at. rewrite comp_nested. cbv zeta.
+  exists [(I_Put, OExpr (jl0 s))], [Some i], [0], [mkP (img a) (jl0 s) (jl0 s) default_end].
+  cbn [f_inl f_ool f_ji f_jo img bdef].
+  split; [apply inl_nested|]. split; [reflexivity|]. split; [reflexivity|].
+  pose proof (body_one sym_hash toks ns (jl0 s) b a (jl0 s) default_end [ins I_EndExpression] ob jb 0 (Hb (jl0 s))
+                (or_intror (conj eq_refl Fb)) eq_refl) as HB.
+  cbn [length default_end] in HB. eapply bodies_weaken; [|exact HB]. cbn [Ast.size]. lia.
+Qed.
